@@ -1400,8 +1400,9 @@ pub struct Wild<'r> {
     pub formats: Option<Vec<String>>,
 }
 
-const WILD_NAMES: [&str; 24] = [
+const WILD_NAMES: [&str; 44] = [
     "a", "b", "c", "x", "y", "foo", "_t", "this", "a1", "Bar", "get", "set", "iff", "lets", "nullx", "truely", "thisx", "dot", "end_", "_", "__", "beginning", "whiles", "printer",
+    "yes", "no", "on", "off", "n", "nil", "t", "NaN", "inf", "Infinity", "e1", "_1", "True", "FALSE", "Null", "NULL", "Top", "Integer", "name", "a_very_long_identifier_that_goes_on_and_on_and_on_0123456789_ABCDEFGHIJKLMNOPQRSTUVWXYZ_and_on",
 ];
 const WILD_METHODS: [&str; 14] = ["m", "get", "set", "print", "foo", "add", "eq", "x", "this", "k9", "objects", "arrays", "functional", "elsewhere"];
 
